@@ -15,9 +15,9 @@ out = ["### 8.4 Seeded changes (written by independent sub-agents; `seeded/<id>/
        "Each sub-agent received only the text of one property and its own scratch worktree of /repo (nothing from /verif), and",
        "returned a change that still passes the 55 repository tests plus a demonstration script.  Every change was confirmed",
        "with `tools/seedcheck.sh` (demo PASS on the unmodified tree, tests pass with the change, demo FAIL with the change) and",
-       "then the property's quick check was run against the changed worktree (`VERIF_REPO=<worktree>`).  Twelve rounds (a: free",
+       "then the property's quick check was run against the changed worktree (`VERIF_REPO=<worktree>`).  Thirteen rounds (a: free",
        "choice, b: a named focus area per property, c: \"not the obvious place\", d: disguised as a performance / clean-up",
-       "commit, e: needs an exact coincidence a random generator would not produce, f: in a rarely executed branch or environment-dependent path, g: an interaction of two options, sections, calls or argument types, h: a well-meant normalisation or leniency, i: at a limit or in a numeric / positional detail, j: the fallback / negative clause of the property, k: a shared helper or table changed for the worse of one caller, l: order and completeness of effects), %d changes: %d were reported by the check as it" % (len(rows), len(rows) - len(missed)),
+       "commit, e: needs an exact coincidence a random generator would not produce, f: in a rarely executed branch or environment-dependent path, g: an interaction of two options, sections, calls or argument types, h: a well-meant normalisation or leniency, i: at a limit or in a numeric / positional detail, j: the fallback / negative clause of the property, k: a shared helper or table changed for the worse of one caller, l: order and completeness of effects, m: a small feature or compatibility shim added next to the property's code), %d changes: %d were reported by the check as it" % (len(rows), len(rows) - len(missed)),
        "stood at the time, %d were missed and led to the strengthening noted per seed in `meta.json` (`history`); after that all" % len(missed),
        "%d but one (C10-k, not pursued: its trigger is a log that is not self-consistent) are reported by the quick tier at seed 0" % len(rows),
        "(`tools/reseed.sh` re-applies every patch to a fresh worktree and re-checks).",
@@ -59,7 +59,13 @@ out += ["",
         "* a relational check (output with junk = output without) is blind to state that BOTH of its runs inherit: evaluate the",
         "  two sides in processes of their own, and let the junk be a *sibling* of the good input (same component, other routing);",
         "* an exception escaping the decoder under test is a violation to report, never a crashed shard;",
-        "* do not accept two readings where the code base has one (declared trace-buffer size inside an entry).",
+        "* do not accept two readings where the code base has one (declared trace-buffer size inside an entry);",
+        "* *features are keyed by names and constants*: a convenience added next to the decoder triggers on a directory called",
+        "  `logs`, a file name with `[`, a `#define`, a `<pre>` tag, a `%%t`, an earlier output of the same log, one of four model",
+        "  words.  Name things the way the domain does, leave earlier results lying around, and take the dictionary from the",
+        "  target itself: `harness.harvest_constants` walks the loaded modules of the code under test (attributes, containers,",
+        "  literals compiled into functions) and hands the constants of the right shape back to the generator (C20 model words,",
+        "  C17 decoy buffer names) - a special case for a particular value cannot be written without the value being there.",
         "",
         "`tools/handmut.py` additionally applies ~95 hand-written single-edit changes (the *Sensitivity* lists of section 4) and",
         "behaviour-preserving refactors as negative controls (renaming `prettyPrint`/`considerPEL`, inlining `parseHeader`,",
